@@ -400,3 +400,57 @@ func bytexReplayCall(ctx *core.Ctx, id string, c MergeCase) {
 		m.judgeBytes(a, f)
 	}
 }
+
+// stringShapes: JSON string bodies as run-length patterns over byte classes (ASCII, invalid
+// UTF-8 byte, valid 2-byte character, short escape), up to three runs with lengths around the
+// buffer-growth boundaries of the decoder (1, 4, 5, 9, 17, 33).
+func stringShapes() []string {
+	classes := []string{"a", "\xff", "\u00e9", `\n`}
+	lens := []int{1, 4, 5, 9, 17, 33}
+	seen := map[string]bool{}
+	var out []string
+	add := func(s string) {
+		if !seen[s] {
+			seen[s] = true
+			out = append(out, s)
+		}
+	}
+	for _, c1 := range classes {
+		for _, l1 := range lens {
+			add(strings.Repeat(c1, l1))
+			for _, c2 := range classes {
+				if c2 == c1 {
+					continue
+				}
+				for _, l2 := range lens {
+					add(strings.Repeat(c1, l1) + strings.Repeat(c2, l2))
+					for _, c3 := range classes {
+						if c3 == c2 {
+							continue
+						}
+						for _, l3 := range []int{1, 9, 33} {
+							add(strings.Repeat(c1, l1) + strings.Repeat(c2, l2) + strings.Repeat(c3, l3))
+						}
+					}
+				}
+			}
+		}
+	}
+	return out
+}
+
+// runStringShapes feeds every string shape - as a root string, an array element, a member value and
+// a member name - to every []byte parameter.
+func runStringShapes(ctx *core.Ctx, id string, f byteFlags) {
+	shapes := stringShapes()
+	ctx.Count("string_shapes", int64(len(shapes)))
+	m0 := &mergeRun{id: id, legacy: f.legacy, ctx: ctx}
+	ctx.Parallel(len(shapes), func(w *core.Worker, i int) {
+		m := *m0
+		m.w = w
+		q := `"` + shapes[i] + `"`
+		for _, t := range []string{q, "[" + q + "]", `{"k":` + q + `}`, "{" + q + ":1}"} {
+			m.judgeBytes(t, f)
+		}
+	})
+}
